@@ -13,7 +13,7 @@ for d in seeded/${PFX}*/; do
   chk=$(python3 -c "import json,sys; m=json.load(open('$d/meta.json')); print(m['caught_by'][0].split()[0])" 2>/dev/null) || continue
   D=$(mktemp -d /tmp/seedreg-XXXXXX); rmdir $D
   git -C /repo worktree add -q --detach $D HEAD >/dev/null 2>&1
-  if git -C $D apply $d/patch.diff 2>/dev/null || git -C $D apply --3way $d/patch.diff 2>/dev/null; then
+  if git -C $D apply $PWD/$d/patch.diff 2>/dev/null || git -C $D apply --3way $PWD/$d/patch.diff 2>/dev/null; then
     OUTP=$(./check $chk --repo $D --no-evidence --scale $SCALE 2>&1); RC=$?
     case $RC in 1) RES="caught";; 0) RES="MISSED";; *) RES="harness error";; esac
   else
